@@ -187,7 +187,9 @@ typedef struct rcfg_t {
   size_t gen_len;
   uint32_t gen_seed;
   int large;  /* use coap_add_data_large_response */
-  int sep_ms; /* >=0: separate response after this delay */
+  int sep_ms; /* >=0: separate response after this delay (0: when the application says
+                 `trigger`) */
+  int busy_ms; /* the handler takes this long: virtual time passes inside the library call */
   int store;
   uint8_t *stored;
   size_t stored_len;
@@ -225,6 +227,13 @@ typedef struct node_t {
     int type, used;
   } chain[32];
   int nchain;
+  /* untimed async entries waiting for `trigger` */
+  struct {
+    long sid;
+    uint8_t tok[16];
+    size_t toklen;
+  } pend[32];
+  int npend;
   coap_session_t *held[64]; /* server sessions the application holds a reference to */
   int nheld;
   /* parameters applied to every new server session (0 = library default) */
@@ -473,6 +482,8 @@ hnd_generic(coap_resource_t *resource, coap_session_t *session, const coap_pdu_t
   ev_end();
   if (up)
     coap_delete_string(up);
+  if (rc->busy_ms > 0)
+    vf_now_ms += (uint64_t)rc->busy_ms;
 
   if (rc->dyn && (method == 2 || method == 3)) {
     /* unknown-resource handler: create an observable resource for this path */
@@ -559,7 +570,16 @@ hnd_generic(coap_resource_t *resource, coap_session_t *session, const coap_pdu_t
                                (coap_tick_t)rc->sep_ms * COAP_TICKS_PER_SECOND / 1000);
       ev_begin("async");
       ev_int("ok", as != NULL);
+      ev_int("sess", sess_id(session));
+      ev_hex("tok", coap_pdu_get_token(request).s, coap_pdu_get_token(request).length);
       ev_end();
+      if (as && rc->sep_ms == 0 && nd->npend < 32) {
+        coap_bin_const_t t = coap_pdu_get_token(request);
+        nd->pend[nd->npend].sid = sess_id(session);
+        nd->pend[nd->npend].toklen = t.length > 16 ? 16 : t.length;
+        memcpy(nd->pend[nd->npend].tok, t.s, nd->pend[nd->npend].toklen);
+        nd->npend++;
+      }
       if (!as)
         coap_pdu_set_code(response, COAP_RESPONSE_CODE(503));
       return; /* no code: empty ACK for CON */
@@ -969,6 +989,7 @@ fill_rcfg(rcfg_t *rc) {
   }
   rc->large = (int)kvi("large", 0);
   rc->sep_ms = (int)kvi("sep", -1);
+  rc->busy_ms = (int)kvi("busy", 0);
   rc->store = (int)kvi("store", 0);
   rc->sref = (int)kvi("sref", 0);
   rc->maxage = (int)kvi("maxage", -1);
@@ -1296,6 +1317,8 @@ cmd_psk(void) {
   ev_end();
 }
 
+static void do_io(int n);
+
 static void
 cmd_sess(void) {
   /* sess <n> <sid> <proto> <remote> [local=addr] [ack_timeout_ms=] [arf_milli=] [max_retransmit=]
@@ -1355,6 +1378,24 @@ cmd_sess(void) {
   } else if ((v = kv("oscore", NULL))) {
     coap_oscore_conf_t *c = make_oscore_conf(v, (uint64_t)kvi("start_seq", 0), atoi(tok[1]));
     s = c ? coap_new_client_session_oscore(nd->ctx, l ? &local : NULL, &remote, proto, c) : NULL;
+  } else if ((proto == COAP_PROTO_WS || proto == COAP_PROTO_WSS) && kvi("wshost", 1)) {
+    /* as coap-client does: the Host for the HTTP upgrade request is set on the new session
+     * while its connect() is still in progress, which then completes */
+    static coap_str_const_t host = {11, (const uint8_t *)"example.org"};
+    vsock_t *vs;
+    vf_defer_connect = 1;
+    s = coap_new_client_session(nd->ctx, l ? &local : NULL, &remote, proto);
+    vf_defer_connect = 0;
+    if (s) {
+      coap_ws_set_host_request(s, &host);
+      vs = vs_find(&s->sock);
+      if (vs) {
+        s->sock.flags |= COAP_SOCKET_CAN_CONNECT;
+        nd->cs[sid].used = 1; /* events of the connect step name the session */
+        nd->cs[sid].s = s;
+        do_io(atoi(tok[1]));
+      }
+    }
   } else {
     s = coap_new_client_session(nd->ctx, l ? &local : NULL, &remote, proto);
   }
@@ -2007,7 +2048,25 @@ run_command(void) {
     ev_end();
   } else if (!strcmp(c, "failsend"))
     vf_send_fail_countdown = atoi(tok[1]);
-  else if (!strcmp(c, "chain")) {
+  else if (!strcmp(c, "trigger")) {
+    /* trigger <n> : the application is ready to answer every request it deferred with an
+     * untimed async entry */
+    node_t *nd = &nodes[atoi(tok[1])];
+    int i, n = 0;
+    for (i = 0; i < nd->npend; i++) {
+      coap_session_t *s = sess_by_id(nd->pend[i].sid);
+      coap_bin_const_t t = {nd->pend[i].toklen, nd->pend[i].tok};
+      coap_async_t *as = s ? coap_find_async(s, t) : NULL;
+      if (as) {
+        coap_async_trigger(as);
+        n++;
+      }
+    }
+    nd->npend = 0;
+    ev_begin("triggered");
+    ev_int("n", n);
+    ev_end();
+  } else if (!strcmp(c, "chain")) {
     /* chain <n> <trigger tokhex> <new tokhex> [type=0] */
     node_t *nd = &nodes[atoi(tok[1])];
     size_t al, bl;
